@@ -218,6 +218,12 @@ def r_C01visitors(root):
             r2 = call("visit_assignment", v, node, ["r", "=", arhs(v, ("obj_ref", link2))])
             got = (cls["._tx_attrs"]["r"].get(".cls") or {}).get(".cls_name"); want = "Target" if second == "Target" else "OBJECT"
             rep("C01.i", "visit_assignment", "r=[Target|FQN] ... r=[%s|FQN]" % second, r2[0] == "ret" and got == want, "a reference attribute assigned twice, to [Target|FQN] and to [%s|FQN], gets the target type %r; documented %r (the same target keeps its type, different targets give OBJECT - the match rule FQN is not the type)" % (second, got, want), props_=("C01", "C07", "C10", "C25"))
+    # ---------------------------------------------------------------- import statement
+    for stack in (["main"], ["main", "lib"], ["base.lib", "main"]):
+        v, _c = new_visitor(); got_ = []
+        v[".metamodel"]["._namespace_stack"] = list(stack); v[".metamodel"]["._new_import"] = pyeval.PyFn(lambda name_: got_.append(name_))
+        r = call("visit_import_stm", v, node, ["lib"])
+        rep("C25.n", "visit_import_stm", "import lib  while the namespaces %s are being loaded" % stack, r[0] == "ret" and got_ == ["lib"], "the statement  import lib  (namespaces being loaded: %s) %s and asks the meta-model to import %s; documented: exactly one _new_import('lib') - the meta-model resolves the name against the importing grammar's directory and handles grammars that are already loaded itself (a namespace that happens to be called like the relative import name is another grammar)" % (stack, desc(r), got_ or "nothing"), props_=("C25",))
     # ---------------------------------------------------------------- rule modifiers  R[skipws, ws='..', split='..']
     for mm_skip in (True, False):
         for kids_, want_ in ((["skipws"], ("skipws", True)), (["noskipws"], ("skipws", False)), (["ws", " \t"], ("ws", " \t")), (["ws", ""], ("ws", "")), (["split", "::"], ("split", "::"))):
